@@ -83,7 +83,7 @@ func runEVPair(c *core.Ctx) {
 	if fn := mustMethod(c, e, an.PkgDistsys, "MPCalContext", "commit"); fn != nil {
 		g := e.Graph(fn)
 		info := fn.Pkg.Info
-		errVar := namedResult(fn, 0)
+		errVar := returnedErr(fn)
 		ces := g.FindAtoms(commitEvent(info, false))
 		c.Check(len(ces) == 1 && len(g.FindAtoms(commitEvent(info, true))) == 0, "commit:logs-commit-once", fn.Pos(), "one CommitEvent(_, false)", "commit() does not log exactly one commit event")
 		for _, ce := range ces {
@@ -192,14 +192,25 @@ func runEVRecord(c *core.Ctx) {
 			continue
 		}
 		rec, op := recs[0].(*ast.CallExpr), ops[0]
-		errVar := namedResult(fn, len(resultNames(fn))-1)
+		// the error of the resource operation: the variable its result is assigned to
+		var errVar types.Object
+		if as, ok := g.Parent(op).(*ast.AssignStmt); ok && len(as.Lhs) >= 1 {
+			errVar = an.ObjOf(info, as.Lhs[len(as.Lhs)-1])
+		}
+		if errVar == nil {
+			errVar = returnedErr(fn)
+		}
 		guarded := false
-		for _, cd := range g.CondAtoms(func(ex ast.Expr) bool {
-			be, ok := an.Unparen(ex).(*ast.BinaryExpr)
-			return ok && be.Op == token.EQL && an.ObjOf(info, be.X) == errVar && isNilIdent(info, be.Y)
-		}) {
-			if g.Dominates(op, cd) && g.GuardedBy(rec, cd, true) {
-				guarded = true
+		for _, blk := range g.CFG.Blocks {
+			cd, _ := g.Cond(blk)
+			if cd == nil {
+				continue
+			}
+			// `if err == nil { record }` or `if err != nil { return }; record`
+			if isT, nonNil := nilTestOn(g, info, cd, func(x ast.Expr) bool { return an.ObjOf(info, x) == errVar }); isT {
+				if g.Dominates(op, cd) && g.GuardedBy(rec, cd, !nonNil) {
+					guarded = true
+				}
 			}
 		}
 		c.Check(guarded, "ArchetypeInterface."+spec.fn+":records-only-successful-ops", rec.Pos(), "recorded on the err == nil successor of the resource operation",
@@ -337,9 +348,9 @@ func runClkWitness(c *core.Ctx) {
 			if !isLC || name != "WriteValue" || len(call.Args) != 2 {
 				return true
 			}
-			wc, isWrap := an.Unparen(call.Args[1]).(*ast.CallExpr)
+			wc, isWrap := an.Unparen(an.ResolveLocal(info, fn.Body(), call.Args[1])).(*ast.CallExpr)
 			if isWrap && an.IsFuncNamed(an.CalleeFunc(info, wc), an.PkgTLA, "WrapCausal") && len(wc.Args) == 2 {
-				if gc, isGet := an.Unparen(wc.Args[1]).(*ast.CallExpr); isGet && an.IsMethodNamed(an.CalleeFunc(info, gc), an.PkgTrace, "VClockSink", "GetVClock") {
+				if gc, isGet := an.Unparen(an.ResolveLocal(info, fn.Body(), wc.Args[1])).(*ast.CallExpr); isGet && an.IsMethodNamed(an.CalleeFunc(info, gc), an.PkgTrace, "VClockSink", "GetVClock") {
 					ok = true
 				}
 			}
